@@ -57,6 +57,10 @@ META = {
                 text="contracts: part proved, part bounded. Proved: with a lazy input, compute=False and check_nans=False no force/compute event occurs in the preprocessing chain (4 structure classes), the decomposer (all solver settings; the dask back end receives compute=False), the EOF algorithm and the EOF rotator (power 1 and >1); results stay lazy; input data is stored non-computable; DataContainer.compute is one joint compute over exactly the computable entries. Bounded: chunk layouts x synchronous/threaded scheduler under a counting scheduler for EOF, SparsePCA, ExtendedEOF, MCA, POP, OPA and rotators; equality with the in-memory fit; repeated compute().",
                 note="assumed: the forcing table of the proxies; dask evaluates to the same values under any scheduler; BaseModel.compute's serialise/rebuild only exercised; known findings: POP and OPA compute during a deferred fit; bounded: 40 (quick) / 70 (thorough) fits",
                 ref="5/C12"),
+    "C07": dict(level="other", technique="contract-based deductive verification: name-genericity by tracing the real chain and model algorithms with fresh dimension names, a syntactic contract (AST scan) against hard-coded default names in method bodies, layout independence of the traced preprocessing chain over all dimension orders; bounded relational runs on real models as labelled stand-in",
+                text="contracts: part proved, part bounded. Proved: the traced algorithms (preprocessing chain, EOF, ComplexEOF, CPCCA, EOFRotator) run with fresh sample/feature names and return results carrying only those names and 'mode'; no default dimension name occurs as a literal / attribute / keyword inside the method bodies of 22 model, cross-set, rotator, bootstrapper and preprocessing modules; for every permutation of the input dims (3 structure classes) the chain hands the model the same matrix (values per label, sample coordinate) and restores the order on the way back. Bounded: singular values, components at each label and scores under transposition, feature permutation, Dataset / list splitting, custom names and sample permutation for 11 model classes.",
+                note="assumed: parametricity in names (collisions with literals the code introduces not explored); SVD equivariance under permutations; known findings: SparsePCA has no sign convention, complex modes are fixed only up to a phase; list items with the sample dim at different positions (C02); bounded: 59 (quick) / 75 (thorough) relational runs",
+                ref="5/C07"),
 }
 NA_REASON = "no check registered yet in this snapshot of /verif (build in progress; see DESIGN.md section 5 for the plan)"
 
